@@ -2,6 +2,7 @@ import PhyVerif.Model.C14
 import PhyVerif.Spec.C14
 import PhyVerif.Lemmas.C14
 import PhyVerif.Lemmas.C14b
+import PhyVerif.Lemmas.C14c
 /-!
 # C14 — exported ALF values equal the physical quantities they name
 Only property theorems + non-vacuity examples; proofs in `Lemmas/C14.lean`.
@@ -33,12 +34,28 @@ theorem waveforms_eq (wfs : List Mat) (inds : List (List Nat))
       ((wfs.getD t []).getD s []).getD ((inds.getD t []).getD j 0) 0 :=
   Lemmas.waveforms_eq wfs inds t s j hj
 
-/-- Cluster depths are the depth of the cluster's peak channel, NaN for ids without spikes; without
-features a spike's depth is its cluster's depth. -/
-theorem cluster_depth_eq (ys : List Rat) (peaks nanIdx : List Nat) (c : Nat) (hc : c < peaks.length) :
-    (clusterDepths ys peaks nanIdx).getD c none =
-      if nanIdx.contains c then none else some (ys.getD (peaks.getD c 0) 0) :=
-  Lemmas.cluster_depth_eq ys peaks nanIdx c hc
+/-- WHICH ids are blanked in `clusters.depths` / `clusters.peakToTrough`: exactly the ids below the number of clusters
+that NO SPIKE is assigned to — computed from the spike assignment, not a list handed in. -/
+theorem spikeless_ids_spec (n : Nat) (sc : List Nat) (c : Nat) :
+    c ∈ spikelessIds n sc ↔ c < n ∧ c ∉ sc :=
+  Lemmas.mem_spikelessIds n sc c
+
+/-- … and for a curated dataset (`n_clusters` = highest id + 1, C13 `cluster_count_rule`) that list IS the model's
+`nan_idx` (C08 `nanIdx` of the merge map, characterised by C08 `nanIdx_spec`): the composition with C08.  For an
+un-curated dataset `model.nan_idx` is `[]` (model.py:425) whatever the templates without spikes — the export must not
+(and, repaired, does not) take its list from there. -/
+theorem blanked_ids_eq_nanIdx (st sc : List Nat) (hlen : st.length = sc.length) :
+    spikelessIds (sc.foldl max 0 + 1) sc = C08.nanIdx (C08.mergeMap st sc) :=
+  Lemmas.spikelessIds_eq_nanIdx st sc hlen
+
+/-- Cluster depths are the depth of the cluster's peak channel, NaN EXACTLY for the ids without spikes (curated or
+not); one entry per cluster.  `peaks` is the exported `clusters.channels` table (`make_depths` reads it back), `sc`
+the spike assignment. -/
+theorem cluster_depth_eq (ys : List Rat) (peaks sc : List Nat) (c : Nat) (hc : c < peaks.length) :
+    (exportClusterDepths ys peaks sc).getD c none =
+      (if c ∈ sc then some (ys.getD (peaks.getD c 0) 0) else none) ∧
+    (exportClusterDepths ys peaks sc).length = peaks.length :=
+  ⟨Lemmas.export_cluster_depth_eq ys peaks sc c hc, Lemmas.exportClusterDepths_length ys peaks sc⟩
 
 /-! ## Second part: unit factor, exported waveforms of the RETURNED templates, spike depths without features,
 durations in milliseconds (model additions at the end of `Model/C14.lean`, proofs in `Lemmas/C14b.lean`; the
@@ -107,29 +124,45 @@ theorem exported_waveform_nan (d : Data) (f : Rat) (inds : List (List Nat)) (t :
     (exportWaveformsOpt (rescaledUnit d f) inds).getD t none = none :=
   Lemmas.exported_waveform_nan d f inds t ht hv
 
-/-- Without features a spike's depth is its cluster's depth: the depth (y) of the cluster's peak channel (NaN if the
-cluster id were listed in `nan_idx`), for every spike whose cluster id is below the number of clusters (the real code
-raises `IndexError` otherwise). -/
-theorem spike_depth_eq (ys : List Rat) (peaks nanIdx sc : List Nat) (i : Nat) (hi : i < sc.length)
+/-- "or the cluster depth when no features exist": whenever `get_depths()` gives nothing — no feature file, or
+features stored for a SUBSET of the spikes (`pc_feature_spike_ids.npy`, model.py:1106) — a spike's depth is the depth
+(y) of its cluster's peak channel, and it is NEVER NaN (the spike's own cluster has a spike), for every spike whose
+cluster id is below the number of clusters (the real code raises `IndexError` otherwise); one entry per spike. -/
+theorem spike_depth_eq (fe : Option Feats) (ys : List Rat) (peaks st sc : List Nat)
+    (hno : ∀ f, fe = some f → f.feat0.length ≠ st.length) (i : Nat) (hi : i < sc.length)
     (hc : sc.getD i 0 < peaks.length) :
-    (spikeDepthsFromClusters (clusterDepths ys peaks nanIdx) sc).getD i none =
-      if nanIdx.contains (sc.getD i 0) then none else some (ys.getD (peaks.getD (sc.getD i 0) 0) 0) :=
-  Lemmas.spike_depth_eq ys peaks nanIdx sc i hi hc
+    (exportSpikeDepths fe ys peaks st sc).getD i none = some (ys.getD (peaks.getD (sc.getD i 0) 0) 0) ∧
+    (exportSpikeDepths fe ys peaks st sc).length = sc.length :=
+  ⟨Lemmas.export_spike_depth_eq fe ys peaks st sc ((Lemmas.getDepths_none_iff fe ys st).2 hno) i hi hc,
+   Lemmas.exportSpikeDepths_length_fallback fe ys peaks st sc ((Lemmas.getDepths_none_iff fe ys st).2 hno)⟩
+
+/-- "spike depths are feature-weighted channel depths": with a feature row for every spike, the exported depth of
+spike `i` is `Σ y_c · w_c / Σ w_c` over the channels `c` listed for the spike's template, `w = max(feature, 0)²` on the
+first component (NaN when no weight is positive) — the composition of the export with C09 `depths_eq`. -/
+theorem spike_depth_features_eq (f : Feats) (ys : List Rat) (peaks st sc : List Nat)
+    (hl : f.feat0.length = st.length) (i : Nat) (hi : i < st.length) :
+    (exportSpikeDepths (some f) ys peaks st sc).getD i none =
+      (let w := (f.feat0.getD i []).map fun x => (max x 0) * (max x 0)
+       let y := (f.cols.getD (st.getD i 0) []).map fun c => ys.getD c 0
+       if w.sum = 0 then none else some (dot y w / w.sum)) ∧
+    (exportSpikeDepths (some f) ys peaks st sc).length = st.length :=
+  Lemmas.spike_depth_features_eq f ys peaks st sc hl i hi
 
 -- `hr`: the domain (a sampling rate); the equation does not need it
 set_option linter.unusedVariables false in
-/-- `clusters.peakToTrough[c]` in MILLISECONDS: NaN for ids without spikes, else `(iM − im) · 1000 / rate` for THE
-peak channel `p` of the cluster waveform and THE first arg-max `iM` / arg-min `im` along time on it (direct formula
-of C09 `duration_ms_spec`; objects exist by C09 `duration_objects_exist`); one entry per cluster. -/
-theorem peakToTrough_eq (wfs : List Mat) (rate : Rat) (hr : 0 < rate) (nanIdx : List Nat) (ns nc : Nat)
+/-- `clusters.peakToTrough[c]` in MILLISECONDS: NaN EXACTLY for the ids without spikes (curated or not), else
+`(iM − im) · 1000 / rate` for THE peak channel `p` of the cluster waveform and THE first arg-max `iM` / arg-min `im`
+along time on it (direct formula of C09 `duration_ms_spec`; objects exist by C09 `duration_objects_exist`); one entry
+per cluster. -/
+theorem peakToTrough_eq (wfs : List Mat) (rate : Rat) (hr : 0 < rate) (sc : List Nat) (ns nc : Nat)
     (hns : 0 < ns) (hnc : 0 < nc) (hrect : ∀ W ∈ wfs, Rect W ns nc) (c : Nat) (hc : c < wfs.length)
     (p iM im : Nat) (hp : IsPeakChannel (wfs.getD c []) nc p) (hM : IsFirstMax (chan (wfs.getD c []) p) iM)
     (hm : IsFirstMin (chan (wfs.getD c []) p) im) :
-    (exportPeakToTrough wfs rate nanIdx).getD c none =
-      (if nanIdx.contains c then none else some ((((iM : Int) - (im : Int) : Int) : Rat) * 1000 / rate)) ∧
-    (exportPeakToTrough wfs rate nanIdx).length = wfs.length :=
-  ⟨Lemmas.peakToTrough_eq wfs rate nanIdx ns nc hns hnc hrect c hc p iM im hp hM hm,
-   Lemmas.exportPeakToTrough_length wfs rate nanIdx⟩
+    (exportDurations wfs rate sc).getD c none =
+      (if c ∈ sc then some ((((iM : Int) - (im : Int) : Int) : Rat) * 1000 / rate) else none) ∧
+    (exportDurations wfs rate sc).length = wfs.length :=
+  ⟨Lemmas.durations_eq wfs rate sc ns nc hns hnc hrect c hc p iM im hp hM hm,
+   Lemmas.exportDurations_length wfs rate sc⟩
 
 /-- "Peak channel FIRST", literally: when no other channel sits at the peak channel's position (the loader replaces
 non-distinct positions, model.py:390-393, so every exported dataset satisfies this) and at least one channel is
@@ -181,13 +214,33 @@ example : ∃ W E, (rescaledUnit exT (5/2)).getD 1 none = some W ∧ IsPeakAmp W
     (by decide) (15/4) (by decide +kernel) (by decide +kernel) 2 2 (by decide) (by decide) (by decide +kernel)
 example : (exportWaveformsOpt (rescaledUnit exT (5/2)) [[0, 1], [1, 0], [0, 1]]).getD 2 none = none :=
   exported_waveform_nan exT (5/2) _ 2 (by decide) (by decide +kernel)
-example : spikeDepthsFromClusters (clusterDepths [10, 20, 40] [2, 0, 1] [1]) [0, 2, 2, 0] =
+-- an UN-CURATED assignment whose template 1 has no spike: id 1 is blanked (before the repair it was not)
+example : spikelessIds 3 [0, 2, 2, 0] = [1] := by decide
+example : exportClusterDepths [10, 20, 40] [2, 0, 1] [0, 2, 2, 0] = [some 40, none, some 20] := by decide +kernel
+example : (exportClusterDepths [10, 20, 40] [2, 0, 1] [0, 2, 2, 0]).getD 1 none = none := by
+  rw [(cluster_depth_eq [10, 20, 40] [2, 0, 1] [0, 2, 2, 0] 1 (by decide)).1]; decide
+example : spikelessIds ([4, 0, 4, 2, 2, 4].foldl max 0 + 1) [4, 0, 4, 2, 2, 4] = [1, 3] := by
+  rw [blanked_ids_eq_nanIdx [0, 0, 1, 2, 2, 1] [4, 0, 4, 2, 2, 4] (by decide)]; decide
+-- no features / features for 2 of 4 spikes: the cluster depth, never NaN
+example : exportSpikeDepths none [10, 20, 40] [2, 0, 1] [0, 2, 2, 0] [0, 2, 2, 0] =
     [some 40, some 20, some 20, some 40] := by decide +kernel
-example : (spikeDepthsFromClusters (clusterDepths [10, 20, 40] [2, 0, 1] [1]) [0, 2, 2, 0]).getD 1 none = some 20 := by
-  rw [spike_depth_eq [10, 20, 40] [2, 0, 1] [1] [0, 2, 2, 0] 1 (by decide) (by decide)]; decide +kernel
-example : exportPeakToTrough [[[1, 0, 4], [-1, 2, 0], [3, 1, 2]], [[0, 0, 1], [0, 5, 0], [0, -1, 0]],
-    [[0, 0, 0], [0, 0, 0], [0, 0, 0]]] 30000 [2] = [some (1/30), some (-1/30), none] := by decide +kernel
-example : (exportPeakToTrough [[[1, 0, 4], [-1, 2, 0], [3, 1, 2]]] 30000 [5]).getD 0 none =
+example : exportSpikeDepths (some ⟨[[1, 2], [0, 1]], [[0, 1], [0, 1], [0, 1]]⟩) [10, 20, 40] [2, 0, 1] [0, 2, 2, 0]
+    [0, 2, 2, 0] = [some 40, some 20, some 20, some 40] := by decide +kernel
+example : (exportSpikeDepths (some ⟨[[1, 2], [0, 1]], [[0, 1], [0, 1], [0, 1]]⟩) [10, 20, 40] [2, 0, 1] [0, 2, 2, 0]
+    [0, 2, 2, 0]).getD 1 none = some 20 := by
+  rw [(spike_depth_eq (some ⟨[[1, 2], [0, 1]], [[0, 1], [0, 1], [0, 1]]⟩) [10, 20, 40] [2, 0, 1] [0, 2, 2, 0]
+    [0, 2, 2, 0] (by intro f hf; cases hf; decide) 1 (by decide) (by decide)).1]; decide +kernel
+-- features for every spike: the feature-weighted depths (spike 1: weights 0 and 1 -> depth of channel 1; spike 2: no
+-- positive weight -> NaN)
+example : exportSpikeDepths (some ⟨[[1, 1], [-1, 1], [-1, 0]], [[0, 1], [0, 1], [1, 2]]⟩) [10, 20, 40] [2, 0, 1] [0, 2, 1]
+    [0, 2, 1] = [some 15, some 40, none] := by decide +kernel
+example : (exportSpikeDepths (some ⟨[[1, 1], [-1, 1], [-1, 0]], [[0, 1], [0, 1], [1, 2]]⟩) [10, 20, 40] [2, 0, 1] [0, 2, 1]
+    [0, 2, 1]).length = 3 :=
+  (spike_depth_features_eq ⟨[[1, 1], [-1, 1], [-1, 0]], [[0, 1], [0, 1], [1, 2]]⟩ [10, 20, 40] [2, 0, 1] [0, 2, 1]
+    [0, 2, 1] (by decide) 0 (by decide)).2
+example : exportDurations [[[1, 0, 4], [-1, 2, 0], [3, 1, 2]], [[0, 0, 1], [0, 5, 0], [0, -1, 0]],
+    [[0, 0, 0], [0, 0, 0], [0, 0, 0]]] 30000 [0, 1, 1] = [some (1/30), some (-1/30), none] := by decide +kernel
+example : (exportDurations [[[1, 0, 4], [-1, 2, 0], [3, 1, 2]]] 30000 [0, 0]).getD 0 none =
     some (((((2 : Nat) : Int) - ((1 : Nat) : Int) : Int) : Rat) * 1000 / 30000) := by
   have hp : IsPeakChannel ([[[1, 0, 4], [-1, 2, 0], [3, 1, 2]]].getD 0 []) 3 0 := by
     have h := (C09.Lemmas.peakChannels_spec [[[1, 0, 4], [-1, 2, 0], [3, 1, 2]]] 0 3 3 (by decide) ⟨by decide, by decide⟩
@@ -195,7 +248,7 @@ example : (exportPeakToTrough [[[1, 0, 4], [-1, 2, 0], [3, 1, 2]]] 30000 [5]).ge
     rwa [show (peakChannels [[[1, 0, 4], [-1, 2, 0], [3, 1, 2]]]).getD 0 0 = 0 by decide +kernel] at h
   have hM : IsFirstMax (chan ([[[1, 0, 4], [-1, 2, 0], [3, 1, 2]]].getD 0 []) 0) 2 := by unfold IsFirstMax; decide +kernel
   have hm : IsFirstMin (chan ([[[1, 0, 4], [-1, 2, 0], [3, 1, 2]]].getD 0 []) 0) 1 := by unfold IsFirstMin; decide +kernel
-  rw [(peakToTrough_eq _ 30000 (by decide +kernel) [5] 3 3 (by decide) (by decide) (by decide) 0 (by decide) 0 2 1 hp hM hm).1]
+  rw [(peakToTrough_eq _ 30000 (by decide +kernel) [0, 0] 3 3 (by decide) (by decide) (by decide) 0 (by decide) 0 2 1 hp hM hm).1]
   decide +kernel
 end Instances
 
